@@ -132,6 +132,23 @@ func masked(text string, cov []bool, mask rune, regs []triex.Region) string {
 	return b.String()
 }
 
+// maskedBytes is the expectation for text that is not valid UTF-8: every maximal covered region
+// (a union of occurrences of valid patterns, hence valid UTF-8 itself) becomes one mask rune per
+// rune of the region, every other byte is kept verbatim.
+func maskedBytes(text string, mask rune, regs []triex.Region) string {
+	var b strings.Builder
+	prev := 0
+	for _, rg := range regs {
+		b.WriteString(text[prev:rg.Lo])
+		for n := utf8.RuneCountInString(text[rg.Lo:rg.Hi]); n > 0; n-- {
+			b.WriteRune(mask)
+		}
+		prev = rg.Hi
+	}
+	b.WriteString(text[prev:])
+	return b.String()
+}
+
 // shape describes the set of legal Replace outputs, e.g. `"x" #{1..2} "yz" #{1..1} ""`.
 func shape(text string, regs []triex.Region) string {
 	var b strings.Builder
@@ -214,7 +231,9 @@ func visit(sh *triex.Shard, v *triex.Visit) {
 					v.Case("text", text, map[string]any{"repl": "#", "stack": st, "want_shape": shape(text, regs)}),
 					setup() + fmt.Sprintf("\t_ = tr.Replace(%q, \"#\") // panics\n}", text)
 			})
-		} else if t.Valid {
+		} else {
+			// byte-level clauses ("removes exactly the bytes covered by occurrences, keeps all other
+			// bytes in order") apply to every text, valid UTF-8 or not
 			k := kept(text, regs)
 			switch {
 			case len(regs) == 0 && out == text:
@@ -241,7 +260,7 @@ func visit(sh *triex.Shard, v *triex.Visit) {
 					v.Case("text", text, map[string]any{"repl": "", "stack": st}),
 					setup() + fmt.Sprintf("\t_ = tr.Replace(%q, \"\") // panics\n}", text)
 			})
-		} else if t.Valid {
+		} else {
 			if k := kept(text, regs); out != k {
 				sh.Col.Report("Replace|wrong-kept-bytes|"+o.TextClass(t), v.Size(text), func() (string, any, string) {
 					return fmt.Sprintf("Replace(%q, \"\") = %q, want exactly the uncovered bytes %q", text, out, k),
@@ -270,10 +289,13 @@ func visit(sh *triex.Shard, v *triex.Visit) {
 				})
 				continue
 			}
-			if !t.Valid {
-				continue
+			w := ""
+			if t.Valid {
+				w = masked(text, cov, mask, regs)
+			} else {
+				w = maskedBytes(text, mask, regs)
 			}
-			if w := masked(text, cov, mask, regs); out != w {
+			if out != w {
 				kind := "wrong-result"
 				if utf8.RuneCountInString(out) != utf8.RuneCountInString(text) {
 					kind = "rune-count-changed"
